@@ -250,12 +250,12 @@ def run(ctx):
             if tgt is None:
                 r.bad("hash/%s/hashed" % v, where(hb), "no arm for this event")
                 continue
-            ok, w = hb.must_pass([tgt], {c.block for c in ev_h}, targets={loop_head} | set(hb.exits()))
+            ok, w = hb.must_pass_assuming(sw[0]["block"], v, {c.block for c in ev_h}, targets={loop_head} | set(hb.exits()))
             r.check(ok, "hash/%s/event-hashed" % v, where(hb), "a %s event is always hashed" % v, "a %s event can go round the loop without being hashed (path %s): texts differing only there hash alike, and the hash no longer tracks the comparator" % (v, w))
         sa = ve.get("StartAttribute")
         ea = ve.get("EndAttribute")
-        ok, w = hb.must_pass([sa], {c.block for c in pushes}, targets={loop_head} | set(hb.exits()))
-        r.check(ok and len(pushes) >= 1 and all(hb.dominates(sa, c.block) for c in pushes), "hash/StartAttribute/pushes-one-flag", where(hb), "every attribute start pushes a flag (and nothing else does)",
+        ok, w = hb.must_pass_assuming(sw[0]["block"], "StartAttribute", {c.block for c in pushes}, targets={loop_head} | set(hb.exits()))
+        r.check(ok and len(pushes) >= 1 and all(hb.dominates(sa, c.block) or arm_of(c) == "StartAttribute" for c in pushes), "hash/StartAttribute/pushes-one-flag", where(hb), "every attribute start pushes a flag (and nothing else does)",
                 "an attribute start can pass without pushing its flag (%s), or a flag is pushed elsewhere: the stack no longer pairs starts with ends" % w)
         twice = [(a, b) for a in pushes for b in pushes if a is not b and hb.reaches(a.block, {b.block}, avoid={loop_head})]
         r.check(not twice, "hash/StartAttribute/at-most-one-push", where(hb), "no path pushes two flags for one attribute")
@@ -284,12 +284,13 @@ def run(ctx):
             r.check(any("is_implicit_record" in d and l == "true" for d, l, _ in g) and any(d.endswith("<Event>.1") and l == "false" for d, l, _ in g), "hash/StartBody/iff-implicit-record-and-no-body-event", sb[0].loc(),
                     "StartBody is synthesised only when the parser reports no body of its own and the look-ahead finds an implicit record", "guards of the synthetic StartBody: %s" % [(d[-40:], l) for d, l, _ in g][-3:])
             g = dom_guards(hb, er[0].block)
-            r.check(len(pops) == 1 and hb.dominates(ea, pops[0].block) and any("pop(" in d and l == "true" for d, l, _ in g), "hash/EndRecord<=>pop()==true", er[0].loc(),
+            r.check(len(pops) == 1 and (hb.dominates(ea, pops[0].block) or arm_of(pops[0]) == "EndAttribute") and any("pop(" in d and l == "true" for d, l, _ in g), "hash/EndRecord<=>pop()==true", er[0].loc(),
                     "a synthetic EndRecord is hashed exactly when the flag popped at the attribute's end is `true`", "the synthetic EndRecord is not tied to the popped flag")
-            eah = [c for c in ev_h if arm_of(c) == "EndAttribute"]
+            # (one `event.hash(..)` shared by every kind of event is also the one of this kind)
+            eah = [c for c in ev_h if arm_of(c) == "EndAttribute"] or [c for c in ev_h if arm_of(c) is None]
             r.check(len(eah) == 1 and hb.reaches(er[0].block, {eah[0].block}, avoid={loop_head}) and not hb.reaches(eah[0].block, {er[0].block}, avoid={loop_head}), "hash/EndRecord-before-EndAttribute", er[0].loc(),
                     "the synthetic EndRecord is hashed before the EndAttribute it belongs to (the order the explicit form produces)", "EndRecord is hashed after EndAttribute: implicit and explicit bodies hash differently")
-            sah = [c for c in ev_h if arm_of(c) == "StartAttribute"]
+            sah = [c for c in ev_h if arm_of(c) == "StartAttribute"] or [c for c in ev_h if arm_of(c) is None]
             r.check(len(sah) == 1 and hb.reaches(sah[0].block, {sb[0].block}, avoid={loop_head}) and not hb.reaches(sb[0].block, {sah[0].block}, avoid={loop_head}), "hash/StartAttribute-before-StartBody", sb[0].loc(),
                     "StartAttribute is hashed before the synthetic StartBody", "the synthetic StartBody is hashed before its StartAttribute")
 
@@ -312,6 +313,14 @@ def run(ctx):
 
         def validator_side(op):
             return vside.get(root_local(op))
+
+        def const_events(d):
+            """the constant event(s) an operand stands for: `ReadEvent::StartBody`, or each element in turn of a literal array that is iterated
+            (`for structural in [ReadEvent::StartBody, ReadEvent::EndRecord] { if event == structural {..} }`)"""
+            if d.startswith("ReadEvent::") and d.endswith("()") and "," not in d:
+                return [d[len("ReadEvent::"):-2]]
+            m_ = re.match(r"^next\(into_iter\(agg\(((?:ReadEvent::\w+\(\)(?:, )?)+)\)\)\)<Some>\.0$", d)
+            return [x[len("ReadEvent::"):-2] for x in m_.group(1).split(", ")] if m_ else []
 
         def event_side(op, _depth=0, _seen=None):
             """which input an event comes from. An event that went through a helper (`let Some(event_1) = skip_structural(.., event_1, ..)`) is one of
@@ -378,11 +387,10 @@ def run(ctx):
         for c in inc_b.calls:
             if c.name in ("eq", "ne") and "ReadEvent" in (c.defpath + str(c.callee)):
                 ds = [describe_operand(inc_b, a) for a in c.args]
-                const = [d for d in ds if d.startswith("ReadEvent::") and d.endswith("()")]
-                var = [a for a, d in zip(c.args, ds) if not (d.startswith("ReadEvent::") and d.endswith("()"))]
-                if len(const) == 1 and len(var) == 1 and event_side(var[0]) is not None:
+                const = [d for d in ds if const_events(d)]
+                var = [a for a, d in zip(c.args, ds) if not const_events(d)]
+                for nm in (const_events(const[0]) if len(const) == 1 and len(var) == 1 and event_side(var[0]) is not None else []):
                     which = event_side(var[0])
-                    nm = const[0][len("ReadEvent::"):-2]
                     skips[which].add(nm)
                     tr = inc_b.bool_edges(c)
                     if tr is None:
@@ -434,8 +442,8 @@ def run(ctx):
                 okv = bool(rets)
         r.check(okv, "compare/values-completed-after-skips-are-compared", vcmp[0].loc() if vcmp else where(inc_b), "what the two events complete in their validators is compared, and a difference answers `false`",
                 "the results of the two feed_event calls after a skip are not compared: when both inputs end there the validators are back in their initial state and differently nested records compare equal ({1,2,{}} vs {1,{2}}) while their hashes differ")
-        skip_eqs = [c for c in inc_b.calls if c.name in ("eq", "ne") and any(describe_operand(inc_b, a).startswith("ReadEvent::") for a in c.args)]
-        fin = [c for c in inc_b.calls if c.name == "ne" and len(c.args) == 2 and not any(describe_operand(inc_b, a).startswith("ReadEvent::") for a in c.args)
+        skip_eqs = [c for c in inc_b.calls if c.name in ("eq", "ne") and any(const_events(describe_operand(inc_b, a)) for a in c.args)]
+        fin = [c for c in inc_b.calls if c.name == "ne" and len(c.args) == 2 and not any(const_events(describe_operand(inc_b, a)) for a in c.args)
                and all(op_place(a) is not None and "ReadEvent" in inc_b.locals[op_place(a)[0]] and "Option<" not in inc_b.locals[op_place(a)[0]] for a in c.args)
                and sorted(str(event_side(a)) for a in c.args) == ["1", "2"] and skip_eqs and all(inc_b.reaches(x.block, {c.block}) for x in skip_eqs) and not any(inc_b.reaches(c.block, {x.block}, avoid={n_.block for n_ in nexts[:2]}) for x in skip_eqs)]
         r.check(len(fin) == 1, "compare/mismatch-after-skips-decides", where(inc_b), "after the skips the two current events are compared once more and a mismatch is decisive")
@@ -451,6 +459,14 @@ def run(ctx):
                 continue
             g = dom_guards(inc_b, c.block)
             ev = [(d, l) for d, l, _ in g if (re.match(r"^eq\(.+, ReadEvent::(StartBody|EndRecord)\(\)\)$", d) and l == "true") or (re.match(r"^ne\(.+, ReadEvent::(StartBody|EndRecord)\(\)\)$", d) and l == "false")]
+            # one site that takes each delimiter in turn from a literal array stands for a skip of each of them
+            arr = [(d, l) for d, l, _ in g if re.match(r"^(eq|ne)\(.+, next\(into_iter\(agg\((ReadEvent::(StartBody|EndRecord)\(\)(, )?)+\)\)\)<Some>\.0\)$", d) and l == ("true" if d.startswith("eq") else "false")]
+            if not ev and arr:
+                ctxg = [(d, l) for d, l, _ in g if not d.startswith("disc(") and not re.match(r"^(eq|ne)\(", d)]
+                side = "event_1" if inc_b.copy_root(c.args[0]) == 1 else "event_2"
+                for nm_ in re.findall(r"ReadEvent::(\w+)\(\)", arr[-1][0].split("agg(")[1]):
+                    skips.append((c, "%s %s" % (side, nm_), ctxg))
+                continue
             if not ev:
                 continue
             # guards that are not a comparison of events (with each other or with a constant event) and not the shape of the iterator results
@@ -611,8 +627,13 @@ def run(ctx):
         for b, c, s in stops:
             # decision characters in the same body: char(const) calls dominated by this scan call
             tested = set()
+            # (the two scanning states may be arms of one loop over the state: what belongs to a scan is reached from it without going through the
+            # dispatch on the state again)
+            heads = {si["block"] for si in b.switches_on(lambda p_, si: True) if si.get("kind") == "disc" and (si.get("adt") or "").endswith("ValidationState")}
             for x in b.calls:
                 if not b.dominates(c.block, x.block) or x is c:
+                    continue
+                if heads and c.block not in heads and not b.reaches(c.block, {x.block}, avoid=heads):
                     continue
                 # stop at the next scan call (the other state)
                 if any(o[1] is not c and b.dominates(c.block, o[1].block) and b.dominates(o[1].block, x.block) for o in stops if o[0] is b):
